@@ -327,6 +327,8 @@ func scenarioC20(c *RunCtx) {
 			c.Count("probe.deadline_context")
 		}
 	}
+	// what an evaluator error looks like: plain, or one that also wraps the error of a context of the evaluator's own
+	s.EvalErrFlavor = t.Pick("evalErrFlavor", 2, 1, 1)
 	c.Sample = s.Describe()
 	switch mode {
 	case 0:
